@@ -465,12 +465,13 @@ theorem foldl_applyEvict_now (evs : List Evicted) : ∀ s : State, (evs.foldl ap
     rw [ih]
     exact (applyEvict_frame s e).2.2.2.2.2.2.1
 
-/-- a put that fits (and is not heavier than the whole cache) is accepted at once, nothing is evicted -/
+/-- a put that fits (and is not heavier than the whole cache) is accepted at once, nothing is evicted — `hno`: the free
+    space `max - used` is representable in `i64` (else the worker panics computing it) -/
 theorem maybeAdd_fits (t : TinyLFU) (size : Nat) (a : Adm) (id key hash : Nat) (w : Int) (o : Oracle)
-    (h1 : w ≤ a.max) (h2 : w ≤ a.max - a.used) :
+    (h1 : w ≤ a.max) (hno : a.spaceOverflow = false) (h2 : w ≤ a.max - a.used) :
     maybeAdd t size a id key hash w o = .ok { status := .accepted, adm := a.add id key hash w, oracle := o } := by
   unfold maybeAdd
-  rw [if_neg (by omega), if_pos (by omega)]
+  rw [if_neg (by omega), if_neg (by simp [hno]), if_pos (by omega)]
 
 /-- evictions happen only under memory pressure -/
 theorem maybeAdd_evicted {t : TinyLFU} {size : Nat} {a : Adm} {id key hash : Nat} {w : Int} {o : Oracle}
@@ -482,6 +483,10 @@ theorem maybeAdd_evicted {t : TinyLFU} {size : Nat} {a : Adm} {id key hash : Nat
     subst h
     exact absurd rfl hne
   · split at h
+    · simp only [Except.ok.injEq] at h
+      subst h
+      exact absurd rfl hne
+    split at h
     · simp only [Except.ok.injEq] at h
       subst h
       exact absurd rfl hne
@@ -520,6 +525,10 @@ theorem workerPut_key {s : State} {id hash : Nat} {w : Int} {k v : Nat} {ttl : O
         rw [h0] at hne
         exact hne rfl
       dsimp only at h
+      split at h
+      · simp only [Except.ok.injEq, Prod.mk.injEq] at h
+        obtain ⟨rfl, _⟩ := h
+        exact ⟨fnow, Or.inr ⟨hk, r.evicted.map (·.2.1), hpress, Or.inl (by simp only [Exec.kill, f1])⟩⟩
       split at h
       · split at h
         · simp only [Except.ok.injEq, Prod.mk.injEq] at h
@@ -1049,14 +1058,15 @@ theorem qinv_of_reach {cfg : Cfg} {now : Nat} {seeds : List Nat} {s : State} (h 
     untouched.  (With a time-to-live whose deadline is not representable the worker panics instead, after the
     admission; also then nothing is evicted.) -/
 theorem workerPut_fits (s : State) (id hash : Nat) (w : Int) (k v : Nat) (ttl : Option Nat) (o : Oracle)
-    (hk : s.store.get? k = none) (h1 : w ≤ s.adm.max) (h2 : w ≤ s.adm.max - s.adm.used) :
+    (hk : s.store.get? k = none) (h1 : w ≤ s.adm.max) (hno : s.adm.spaceOverflow = false)
+    (h2 : w ≤ s.adm.max - s.adm.used) :
     (∃ s1 entry, workerPut s id hash w k v ttl o = .ok (.done s1 .accepted none [] [], o) ∧
       s1.store = s.store.set k entry ∧ entry.value = v ∧ entry.id = id ∧ entry.soft = false) ∨
     (∃ s1 t, ttl = some t ∧ addTime s.now t = none ∧
       workerPut s id hash w k v ttl o = .ok (.panicked s1 .timeOverflow, o) ∧ s1.store = s.store) := by
   have hc : s.store.contains k = false := by simp [AMap.contains, hk]
   unfold workerPut
-  simp only [hc, Bool.false_eq_true, if_false, maybeAdd_fits _ _ _ _ _ _ _ _ h1 h2, List.foldl_nil, if_true]
+  simp only [hc, Bool.false_eq_true, if_false, maybeAdd_fits _ _ _ _ _ _ _ _ h1 hno h2, List.foldl_nil, if_true]
   cases ttl with
   | none => exact Or.inl ⟨_, _, rfl, rfl, rfl, rfl, rfl⟩
   | some t =>
